@@ -26,6 +26,7 @@ type matchCase struct {
 	Feat    map[string]any
 	Scheds  []*sim.Schedule
 	Sweep   bool
+	Fault   *sim.Schedule // fault configuration: the reader fails (non-EOF) at an offset
 }
 
 type hit struct {
@@ -42,7 +43,7 @@ func (c *matchCase) render() any {
 	for _, s := range c.Scheds {
 		ss = append(ss, s.String())
 	}
-	return map[string]any{"input": fmt.Sprintf("%q", c.Input), "targets": ts, "schedules": ss, "sweep": c.Sweep}
+	return map[string]any{"input": fmt.Sprintf("%q", c.Input), "targets": ts, "schedules": ss, "sweep": c.Sweep, "reader_fault": fmt.Sprint(c.Fault)}
 }
 
 type step struct {
@@ -182,6 +183,11 @@ func drawMatchCase(t *rapid.T) *matchCase {
 		c.Scheds = append(c.Scheds, sim.DrawSchedule(t, len(c.Input), interior))
 	}
 	c.Sweep = len(c.Input) >= 2 && len(c.Input) <= 48 && sim.Intn(t, 4, "sweep") == 3
+	if sim.Intn(t, 5, "readerfault") == 4 {
+		c.Fault = sim.DrawSchedule(t, len(c.Input), nil)
+		c.Fault.FailAt = sim.Intn(t, len(c.Input)+1, "failat")
+		c.Fault.FailSticky = sim.Bool(t, "failsticky")
+	}
 	for _, f := range []string{"root_target", "descent", "wildcard", "union", "negative_index", "slice", "filter"} {
 		if _, ok := c.Feat[f]; !ok {
 			c.Feat[f] = false
@@ -210,13 +216,14 @@ func deepCopy(v any) any {
 }
 
 type matchOutcome struct {
-	Name   string
-	Hits   []hit
-	Err    error
-	Panic  any
-	Hung   bool
-	Bounds []int
-	Calls  int
+	Name     string
+	Hits     []hit
+	Err      error
+	Panic    any
+	Hung     bool
+	Bounds   []int
+	Calls    int
+	FaultHit bool
 }
 
 func runMatch(name string, rd *sim.SimReader, f func(cb func(jp.Expr, any)) error) *matchOutcome {
@@ -227,6 +234,7 @@ func runMatch(name string, rd *sim.SimReader, f func(cb func(jp.Expr, any)) erro
 	o.Panic, o.Hung = sim.Guard(func() { o.Err = f(cb) })
 	if rd != nil {
 		o.Bounds, o.Calls = rd.Bounds, rd.Calls
+		o.FaultHit = rd.FaultHit
 		if rd.Hung {
 			o.Hung = true
 		}
@@ -382,7 +390,7 @@ func walkSimple(doc any, p jp.Expr) (any, bool) {
 }
 
 func propC17(cx *sim.Ctx) {
-	sim.Declare([]string{"reference_has_matches", "reference_has_several_matches", "target_descent", "target_wildcard", "target_union", "target_negative_index", "target_slice", "target_filter", "target_root_target", "cut_inside_string", "cut_inside_number", "cut_inside_literal", "reference_unusable"}, []string{})
+	sim.Declare([]string{"reference_has_matches", "reference_has_several_matches", "target_descent", "target_wildcard", "target_union", "target_negative_index", "target_slice", "target_filter", "target_root_target", "cut_inside_string", "cut_inside_number", "cut_inside_literal", "reference_unusable"}, []string{"reader_error_mid_stream"})
 	c := drawMatchCase(cx.T)
 	cx.Render(c.render)
 	cx.Key(c.Input)
@@ -549,6 +557,32 @@ func propC17(cx *sim.Ctx) {
 		}
 		rd2 := sim.NewSimReader(in, s)
 		vsBytes(senB, runMatch("sen.MatchLoad", rd2, func(cb func(jp.Expr, any)) error { return sen.MatchLoad(rd2, cb, c.Targets...) }))
+	}
+	// fault configuration (judged separately): a reader that fails before the end of the document makes the
+	// call fail - never a successful match of a shorter document -, without panic or hang, and the callbacks made
+	// before the failure are the first callbacks of the fault-free run (missing is excused, wrong is not)
+	if c.Fault != nil {
+		faultedMatch := func(base, o *matchOutcome) {
+			cx.Exec()
+			cx.Steps(o.Calls)
+			if !o.FaultHit {
+				return
+			}
+			sim.Fault("reader_error_mid_stream")
+			switch {
+			case o.Hung || o.Panic != nil:
+				cx.Fail(fmt.Sprintf("C17/reader-fault/%s/panic-or-hang", o.Name), fmt.Sprintf("%s: panic=%v hung=%v", c.Fault, o.Panic, o.Hung), attrs())
+			case o.Err == nil:
+				cx.Fail(fmt.Sprintf("C17/reader-fault/%s/error-swallowed", o.Name), fmt.Sprintf("%s: the reader failed but the call reports success; callbacks: %s", c.Fault, hitsString(o.Hits)), attrs())
+			case base.Hung || base.Panic != nil || base.Err != nil:
+			case len(o.Hits) > len(base.Hits) || hitsString(o.Hits) != hitsString(base.Hits[:len(o.Hits)]):
+				cx.Fail(fmt.Sprintf("C17/reader-fault/%s/callbacks-not-a-prefix", o.Name), fmt.Sprintf("%s: callbacks before the failure: %s ; fault-free: %s", c.Fault, hitsString(o.Hits), hitsString(base.Hits)), attrs())
+			}
+		}
+		rd := sim.NewSimReader(in, c.Fault)
+		faultedMatch(ojB, runMatch("oj.MatchLoad", rd, func(cb func(jp.Expr, any)) error { return oj.MatchLoad(rd, cb, c.Targets...) }))
+		rd2 := sim.NewSimReader(in, c.Fault)
+		faultedMatch(senB, runMatch("sen.MatchLoad", rd2, func(cb func(jp.Expr, any)) error { return sen.MatchLoad(rd2, cb, c.Targets...) }))
 	}
 	if len(want) > 0 {
 		sim.Probe("reference_has_matches")
